@@ -478,6 +478,7 @@ fn check_lists(c: &ListCase, cx: &mut Ctx) -> R {
             }
         }
         ensure!(matches!(raw.next(), Ok(None)), "c08/loc/raw-extra", "list {}", i);
+        ensure!(matches!(raw.next(), Ok(None)), "c08/loc/raw-after-end", "list {}", i);
         let want = resolve(l, c.base & mask(a), a, &c.addrs);
         let mut it = if dwo { locs.locations_dwo(off, enc, c.base & mask(a), &da, ab) } else { locs.locations(off, enc, c.base & mask(a), &da, ab) }.map_err(|e| Failure { sig: "c08/loc/open".into(), detail: format!("{e:?}") })?;
         let (wl, errs) = match &want {
@@ -657,6 +658,21 @@ fn check_dwarf_level(c: &ListCase, b: &BuiltLists, cx: &mut Ctx) -> R {
     if v5 {
         ensure_eq!(unit_r.rnglists_base.0, b.rng_base, "c08/dwarf/unit-rnglists_base");
         ensure_eq!(unit_r.loclists_base.0, b.loc_base, "c08/dwarf/unit-loclists_base");
+    }
+    {
+        // what a split unit takes over from its skeleton: the unit base address and the address table base, and before
+        // version 5 the ranges base; a version 5 unit keeps its own list bases
+        let mut sk = dwarf.unit(header).map_err(|e| Failure { sig: "c08/dwarf/unit".into(), detail: format!("{e:?}") })?;
+        sk.low_pc = unit_base ^ 0x5a5a;
+        sk.addr_base = gimli::DebugAddrBase(c.addr_base + 24);
+        sk.rnglists_base = gimli::DebugRngListsBase(b.rng_base + 40);
+        sk.loclists_base = gimli::DebugLocListsBase(b.loc_base + 56);
+        let mut copy = dwarf.unit(header).map_err(|e| Failure { sig: "c08/dwarf/unit".into(), detail: format!("{e:?}") })?;
+        copy.copy_relocated_attributes(&sk);
+        ensure_eq!(copy.low_pc, sk.low_pc, "c08/dwarf/copy_relocated/low_pc");
+        ensure_eq!(copy.addr_base.0, sk.addr_base.0, "c08/dwarf/copy_relocated/addr_base");
+        ensure_eq!(copy.rnglists_base.0, if v5 { unit_r.rnglists_base.0 } else { sk.rnglists_base.0 }, "c08/dwarf/copy_relocated/rnglists_base", "version {}", cfg.version);
+        ensure_eq!(copy.loclists_base.0, unit_r.loclists_base.0, "c08/dwarf/copy_relocated/loclists_base");
     }
     if dwarf.file_type == gimli::DwarfFileType::Dwo && cfg.version <= 4 {
         // in a pre-v5 .dwo the ranges base is not added by this unit (it has none): keep it zero
